@@ -134,10 +134,38 @@ Definition posix_join (l : list string) : string :=
 (** * Programs *)
 Inductive block := BCd (p : string) | BPrefix (p : string) | BTry.
 
+(** How a body may be left other than by falling off its end.  [XBoom], [XType],
+    [XValue], [XUnexpected] are [Exception] subclasses (an application error; the
+    TypeError / ValueError of refused options; the UnexpectedExit of a command that
+    exited non-zero); KeyboardInterrupt, SystemExit and GeneratorExit are not. *)
+Inductive xkind := XBoom | XType | XValue | XUnexpected | XKbd | XSysExit | XGenExit
+                   | XOtherExc.   (* any other Exception subclass (never produced by the model) *)
+
+Definition is_exception (x : xkind) : bool :=
+  match x with
+  | XBoom | XType | XValue | XUnexpected | XOtherExc => true
+  | XKbd | XSysExit | XGenExit => false
+  end.
+
+Definition xkind_eqb (a b : xkind) : bool :=
+  match a, b with
+  | XBoom, XBoom | XType, XType | XValue, XValue | XUnexpected, XUnexpected
+  | XKbd, XKbd | XSysExit, XSysExit | XGenExit, XGenExit | XOtherExc, XOtherExc => true
+  | _, _ => false
+  end.
+
+Definition oxkind_eqb (a b : option xkind) : bool :=
+  match a, b with
+  | None, None => true
+  | Some x, Some y => xkind_eqb x y
+  | _, _ => false
+  end.
+
+(** [fails]: the command exits non-zero. *)
 Inductive stmt :=
-| SRun (cmd : string)
-| SSudo (cmd : string) (user_kw : option oval) (env_kw : option oval)
-| SRaise
+| SRun (cmd : string) (k : kwargs) (fails : bool)
+| SSudo (cmd : string) (user_kw : option oval) (k : kwargs) (fails : bool)
+| SRaise (x : xkind)
 | SBlock (b : block) (body : list stmt).
 
 Record ctxcfg := mkCC {
